@@ -66,9 +66,11 @@ pub fn c12_exec_private(req: &str) -> String {
             let (eps, delta, cap) = (f(t[1]), f(t[2]), t[3].parse::<u32>().unwrap());
             let (bit_size, ov_bits) = (t[7].parse::<u32>().unwrap(), t[8].parse::<u32>().unwrap());
             let script: Vec<u64> = parse_nat_list(t[10]);
-            match c12_sample_shares(eps, delta, cap, bit_size, ov_bits, t[9] == "L", script) {
-                Ok((shift, l, r, used)) => format!("{shift} {l} {r} {used}"),
-                Err(e) => format!("err {}", e.split('(').next().unwrap()),
+            let dir_left = t[9] == "L";
+            match crate::ipa_verif::c12::with_deadline(10, move || c12_sample_shares(eps, delta, cap, bit_size, ov_bits, dir_left, script)) {
+                None => "timeout".into(),
+                Some(Ok((shift, l, r, used))) => format!("{shift} {l} {r} {used}"),
+                Some(Err(e)) => format!("err {}", e.split('(').next().unwrap()),
             }
         }
         _ => panic!("harness: unknown request {req}"),
